@@ -1170,7 +1170,7 @@ class Processor:
                         if not -len(data) <= slice_index < len(data):
                             continue
                         sliced_elements.append(NodeCoords(
-                            data[slice_index], data, intmin,
+                            data[slice_index], data, slice_index,
                             translated_path + "[{}]".format(slice_index),
                             ancestry + [(data, slice_index)], pathseg))
                     yield NodeCoords(
